@@ -137,7 +137,7 @@ func runC15(r *Report) {
 		if !c.Common().IsInvoke() {
 			continue
 		}
-		r.Ob("R-C15-2", CallPos(c), ls.Held(c.(ssa.Instruction), "mu") == "W", "the non-atomic fallback ("+CalleeOf(c).Name+") runs under the generator's mutex", "tryMarkAsUsed", "fallback-locked:"+CalleeOf(c).Name)
+		r.Ob("R-C15-2", CallPos(c), r.held(ls, c.(ssa.Instruction), "internal/core/idgen", "StorageIDGenerator", "mu") == "W", "the non-atomic fallback ("+CalleeOf(c).Name+") runs under the generator's mutex", "tryMarkAsUsed", "fallback-locked:"+CalleeOf(c).Name)
 	}
 	for _, name := range []string{"Release", "IsUsed"} {
 		f := genericMethod(r.P, idgPkg, "StorageIDGenerator", name)
@@ -165,7 +165,7 @@ func runC15(r *Report) {
 		})
 		allW := true
 		for _, fa := range r.P.FieldAccesses(memPkg, "Storage", "data") {
-			if fa.Fn == ms && mls.Held(fa.In, "mu") != "W" {
+			if fa.Fn == ms && r.held(mls, fa.In, memPkg, "Storage", "mu") != "W" {
 				allW = false
 			}
 		}
@@ -401,7 +401,7 @@ func runC15(r *Report) {
 		for _, fa := range r.P.FieldAccesses(memPkg, "Storage", "data") {
 			if fa.Fn == mi {
 				n++
-				if mls.Held(fa.In, "mu") != "W" {
+				if r.held(mls, fa.In, memPkg, "Storage", "mu") != "W" {
 					allW = false
 				}
 			}
